@@ -17,7 +17,7 @@ PLAN = {
              "probes": ["handle-rollback", "session-abandoned", "nested-rollback"]}],
 }
 
-LEVEL = {}
+LEVEL = {"C06": "fault_enumeration"}
 
 _EXEC = ("one case = a seeded run of the EXEC world: swarm config (public/private fee regime, hardfork heights so that versions 0..5 occur inside a run, coinbase none/fresh/sender, "
          "vault, 3-8 accounts, 1-2 validators) and a step list of client submissions (transfers incl. to new accounts/names/self, stake/unstake/voteBP/voteDAO, name create/update, "
@@ -40,6 +40,7 @@ _CHAIN = ("one case = a seeded run of the CHAIN world: a node under test on a si
           "with clean restarts in between. A model of the specified fork choice (longest fully valid branch, first-seen on ties, one orphan per parent) runs next to it. distinct = distinct (stored blocks, best height, orphans, branches) digests; non-trivial = a fork, forgery or restart occurred. ")
 RULES.update({
     "C05": _CHAIN + "Oracle after every delivery: best links by parent hash to genesis; height index equals that path and has nothing above best; every main-chain tx resolves to (block, index) and has a receipt; receipts per main block with txs; txs only on abandoned branches are not reported confirmed; state-db root = best block's root and carries the state marker; no reorg marker; a rejected block leaves best/state/raw chain store untouched; every stored block sits under the digest of its own header.",
+    "C06": _CHAIN + "For C06 some deliveries are crash-scanned: the delivery is first done fault-free while the disk journals its durable write units (single set/delete, committed DB transaction, flushed bulk; state-store bulks additionally split into chunks of 1/2/4 ops in a seeded order of the map-ordered part, and torn inside a chunk), then for EVERY prefix of that journal (and torn prefixes) the disk is rebuilt as the crash leaves it, the node restarts through the production boot + Recover path (optionally dying once more inside recovery), and the oracle requires: recovery succeeds; all C05 invariants incl. state marker of best; best is the old tip, the new tip or a tip the connection passes through (reorg: old or new branch tip only); re-feeding the same blocks reaches the fault-free best block and state root. One evaluation = one run; crash trials are counted in faults_fired.",
     "C07": _CHAIN + "Oracle after every delivery: node best = model best (longer valid branch adopted; shorter/equal/invalid never displaces); on a reorg the txs handed back to the pool are exactly txs(old branch) - txs(new branch); at the end the node accepts one more block on its own tip and its full state (all accounts) equals that of a reference node that only ever saw the winning branch.",
 })
 
@@ -79,6 +80,9 @@ MAN = {
     "C05": {"text": "seeded search over block trees (forks, orphans, duplicates, forged and invalid blocks, restarts) delivered in generated orders to a real ChainService on a simulated disk; the full C05 invariant set is evaluated through the query surface and a raw key scan after every delivery. Found and fixed three genuine defects (stale signature verdict, refused reorg leaving state at the branch point, sender-supplied block id).",
             "ref": "5 C05", "note": "trusted: the fork-choice model (longest valid branch, first seen wins ties), the harness hub adapters, VM stub; permissive consensus plug (no slot/timestamp veto) so that arbitrary trees are admissible",
             "technique": "deterministic simulation: seeded block-tree arrival orders with forged/invalid blocks and restarts, invariants checked after every delivered block, ddmin-minimised replay"},
+    "C06": {"text": "for sampled deliveries (linear connect with txs, orphan-chain resolution, reorganisations) of seeded block-tree histories, a crash is injected before EVERY durable write unit of the delivery (plus torn state bulks and a second crash inside recovery); after restart + recovery the C05 invariants, the legitimacy of the recovered tip and convergence after re-feeding are checked. One known finding (re-fed stored side branch is ignored until the next block) is reported as KNOWN-FINDING and checked in its weakened form.",
+            "ref": "5 C06", "note": "trusted: simdisk's write-unit semantics (set/delete and DB transactions atomic; chain-store bulks atomic as badger commits small write batches in one transaction; state-store bulks chunked and torn), the fork-choice model; crash points are enumerated per sampled delivery, scenarios are sampled",
+            "technique": "deterministic simulation with fault injection: journaling simulated disk, crash enumerated at every durable write unit of sampled block connections/reorganisations, restart through the real recovery path"},
     "C07": {"text": "seeded search over competing branches (all fork depths/length differences in bounds, shared and conflicting txs, invalid block at any position of the longer branch, any interleaving incl. children first); node best vs a model of the specified fork choice after every delivery, exact hand-back set on reorg, final full-state equality with a reference node that only saw the winning branch, and the node must still extend its own tip.",
             "ref": "5 C07", "note": "trusted: the fork-choice model, reference node wiring, VM stub; LIB-limited forks are covered by the DPOS world (C08), not here",
             "technique": "deterministic simulation: seeded delivery interleavings of competing branches against a reference fork-choice model and a reference node"},
